@@ -65,6 +65,54 @@ fn main() {
             );
         }
     }
+    // pairs of consecutive calls whose analysis windows a too-coarse cache key could confuse, with the
+    // DEFAULT `multithread` (serial on this thread without "par", fresh worker threads with it): state
+    // carried from one call to the next on a thread makes the builds disagree
+    {
+        let alphas: [f32; 12] = [-1.0, 0.0, 1e-9, 1e-8, 1.1e-7, 1e-6, 1e-4, 0.4, 0.400_000_04, 0.401, 0.999_999_9, 1.0];
+        let bs = 256usize;
+        let n = 2 * bs + 40;
+        let mut r = Lcg(0xfeed_beef);
+        // predictable (LPC is chosen) with loud block edges (the taper of a window matters)
+        let x: Vec<i32> = (0..n * 2)
+            .map(|t| (((t / 2) as f64 * 0.7 + (t % 2) as f64).cos() * 30000.0) as i32 + (r.next() % 5) as i32 - 2)
+            .collect();
+        let mut id = 200_000usize;
+        for a in 0..alphas.len() {
+            for b in 0..alphas.len() {
+                if a == b {
+                    continue;
+                }
+                for w in [alphas[a], alphas[b]] {
+                    let mut cfg = config::Encoder::default();
+                    cfg.block_size = bs;
+                    cfg.subframe_coding.qlpc.quant_precision = 15;
+                    cfg.subframe_coding.qlpc.lpc_order = 12;
+                    cfg.subframe_coding.qlpc.window = if w < 0.0 { config::Window::Rectangle } else { config::Window::Tukey { alpha: w } };
+                    let src = MemSource::from_samples(&x, 2, 16, 44100);
+                    let out = match cfg.into_verified() {
+                        Ok(v) => match flacenc::encode_with_fixed_block_size(&v, src, bs) {
+                            Ok(s) => {
+                                let mut sink = ByteSink::new();
+                                match s.write(&mut sink) {
+                                    Ok(()) => sink.as_slice().to_vec(),
+                                    Err(_) => b"write error".to_vec(),
+                                }
+                            }
+                            Err(e) => format!("encode error: {e}").into_bytes(),
+                        },
+                        Err((_, e)) => format!("config error: {e}").into_bytes(),
+                    };
+                    println!(
+                        "{{\"ev\":\"out\",\"build\":\"{build}\",\"case\":{id},\"digest\":\"{}\",\"len\":{},\"mt\":false,\"bytes\":[]}}",
+                        fnv(&out),
+                        out.len()
+                    );
+                    id += 1;
+                }
+            }
+        }
+    }
     for i in 0..cases {
         let mut r = Lcg(0x1234_5678 + i as u64 * 7919);
         let ch = [1usize, 2, 2, 3, 6][i % 5];
